@@ -5,6 +5,7 @@ bounded by the remaining input, and the correspondence run confirms the fuel nev
 operations can only panic on a negative offset or length; end of stream is sticky.
 -/
 import Astits.Model.Demux
+import Astits.Proofs.NoPanic
 namespace Astits.C03
 
 /-- the iterator never panics at a non-negative offset -/
@@ -90,5 +91,237 @@ theorem eof_sticky (d : Demux) (size : Nat) (hs : d.packetSize = some size) (hsz
 
 example : (It.nextByte ⟨[1, 2], -1⟩).isPanic = true := by decide
 example : (It.nextByte ⟨[1, 2], 5⟩).isPanic = false := by decide
+
+/-! ## No parser of the model yields `.panic` (reading side), bottom-up
+
+Helper lemmas: `Astits/Proofs/NoPanic/*.lean` (a no-panic Hoare logic `Tr` / `NP` on the parser monad).
+`NP p` unfolds (`NP_iff`) to: from every iterator with `0 ≤ off`, `p` does not panic and leaves `0 ≤ off`.
+
+FINDINGS (confirmed on the Go implementation): `parsePacket` panics on a sync-byte-led slice shorter than 187 bytes
+(`Seek(len-188+1)` goes negative, the next `NextBytes(3)` slices at a negative index), so
+`DemuxerOptPacketSize(n)` with `1 ≤ n ≤ 186` makes `NextPacket`/`NextData` panic on the first packet that starts
+with 0x47.  The property's domain ("explicit size ≥ 188") excludes it; the exact bound is 187. -/
+
+/-! ### (1) iterator primitives -/
+
+/-- the exact panic conditions of every iterator primitive -/
+theorem iterator_panic_conditions (it : It) (n : Int) :
+    (It.nextByte it = .panic ↔ it.off < 0) ∧
+    (It.nextBytes n it = .panic ↔ it.off + n ≤ it.bs.length ∧ (n < 0 ∨ it.off < 0)) ∧
+    (It.dump it = .panic ↔ it.off < 0) ∧
+    It.seek n it ≠ .panic ∧ It.skip n it ≠ .panic ∧ It.offset it ≠ .panic ∧ It.len it ≠ .panic ∧
+    It.hasBytesLeft it ≠ .panic :=
+  ⟨nextByte_panic_iff it, nextBytes_panic_iff n it, dump_panic_iff it, seek_ne_panic n it, skip_ne_panic n it,
+    offset_ne_panic it, len_ne_panic it, hasBytesLeft_ne_panic it⟩
+
+/-- the invariant `0 ≤ off` is preserved by every primitive on `.ok` (for `Seek`/`Skip`: exactly when the target
+offset is not negative) -/
+theorem iterator_offset_invariant (it it' : It) (h0 : 0 ≤ it.off) :
+    (∀ b, It.nextByte it = .ok (b, it') → 0 ≤ it'.off) ∧
+    (∀ n bs, It.nextBytes n it = .ok (bs, it') → 0 ≤ it'.off) ∧
+    (∀ bs, It.dump it = .ok (bs, it') → 0 ≤ it'.off) ∧
+    (∀ n, It.seek n it = .ok ((), it') → (0 ≤ it'.off ↔ 0 ≤ n)) ∧
+    (∀ n, It.skip n it = .ok ((), it') → (0 ≤ it'.off ↔ 0 ≤ it.off + n)) ∧
+    (∀ o, It.offset it = .ok (o, it') → 0 ≤ it'.off) ∧
+    (∀ l, It.len it = .ok (l, it') → 0 ≤ it'.off) ∧
+    (∀ b, It.hasBytesLeft it = .ok (b, it') → 0 ≤ it'.off) := by
+  refine ⟨?_, ?_, ?_, ?_, ?_, ?_, ?_, ?_⟩
+  · intro b h; have := nextByte_advances it it' b h; omega
+  · intro n bs h; have := nextBytes_advances it it' n bs h; omega
+  · intro bs h; exact NP_dump.off_nonneg it h0 bs it' h
+  · intro n h
+    simp only [It.seek, Res.ok.injEq, Prod.mk.injEq, true_and] at h
+    rw [← h]
+  · intro n h
+    simp only [It.skip, Res.ok.injEq, Prod.mk.injEq, true_and] at h
+    rw [← h]
+  · intro o h; exact NP_offset.off_nonneg it h0 o it' h
+  · intro l h; exact NP_len.off_nonneg it h0 l it' h
+  · intro b h; exact NP_hasBytesLeft.off_nonneg it h0 b it' h
+
+example : (It.nextBytes (-1) ⟨[1, 2], 1⟩).isPanic = true := by decide
+example : (It.dump ⟨[1, 2], -1⟩).isPanic = true := by decide
+
+/-! ### (2) `parsePacket` and the adaptation-field parsers -/
+
+/-- the packet sub-parsers never panic from a non-negative offset, on any bytes -/
+theorem packet_subparsers_never_panic :
+    NP parsePacketHeader ∧ NP parsePCR ∧ NP parsePTSOrDTS ∧ NP parseAFExtension ∧ NP parsePacketAdaptationField :=
+  ⟨NP_parsePacketHeader, NP_parsePCR, NP_parsePTSOrDTS, NP_parseAFExtension, NP_parsePacketAdaptationField⟩
+
+/-- **`parsePacket` never panics** on a slice of at least 187 bytes, from any non-negative offset, with any
+PacketSkipper; on success the offset is not negative -/
+theorem parsePacket_never_panics_from (skip : Option (Packet → Bool)) (it : It) (h0 : 0 ≤ it.off)
+    (hl : 187 ≤ it.bs.length) :
+    parsePacket skip it ≠ .panic ∧ ∀ p it', parsePacket skip it = .ok (p, it') → 0 ≤ it'.off :=
+  ⟨(Tr_parsePacket skip).not_panic it ⟨h0, hl⟩, fun p it' e => (Tr_parsePacket skip).post it ⟨h0, hl⟩ p it' e⟩
+
+/-- **`parsePacket` never panics**, stated for the entry point used by `packetBuffer.next`
+(`(parsePacket skip).val bs`: a fresh iterator on the packet bytes) -/
+theorem parsePacket_never_panics (skip : Option (Packet → Bool)) (bs : Bytes) (hl : 187 ≤ bs.length) :
+    (parsePacket skip).val bs ≠ .panic :=
+  P.val_ne_panic ((Tr_parsePacket skip).not_panic ⟨bs, 0⟩ ⟨Int.le_refl 0, hl⟩)
+
+/-- the guard is exact: `parsePacket` panics precisely on a sync-byte-led slice shorter than 187 bytes -/
+theorem parsePacket_panics_iff (skip : Option (Packet → Bool)) (bs : Bytes) :
+    (parsePacket skip).val bs = .panic ↔ bs.head? = some syncByte ∧ bs.length < 187 := by
+  rw [P.val_panic_iff]; exact parsePacket_panic_iff skip bs
+
+-- non-vacuity: a 188-byte packet (PID 0x100, payload only) satisfies the hypothesis and parses
+example : ∃ bs : Bytes, 187 ≤ bs.length ∧ ((parsePacket none).val bs).isOk = true :=
+  ⟨0x47 :: 0x41 :: 0x00 :: 0x10 :: List.replicate 184 0xab, by decide +kernel, by decide +kernel⟩
+-- the excluded inputs do panic
+example : ((parsePacket none).val [0x47]).isPanic = true := by decide +kernel
+example : ((parsePacket none).val (0x47 :: List.replicate 185 0)).isPanic = true := by decide +kernel
+example : ((parsePacket none).val (0x47 :: List.replicate 186 0)).isPanic = false := by decide +kernel
+
+/-! ### (3) PES -/
+
+/-- **`parsePESData` never panics**: from any non-negative offset, on any bytes -/
+theorem parsePESData_never_panics_from (it : It) (h0 : 0 ≤ it.off) :
+    parsePESData it ≠ .panic ∧ ∀ d it', parsePESData it = .ok (d, it') → 0 ≤ it'.off :=
+  (NP_iff parsePESData).mp NP_parsePESData it h0
+
+/-- **`parsePESData` never panics** on any payload (entry point of `parseData`) -/
+theorem parsePESData_never_panics (payload : Bytes) : parsePESData.val payload ≠ .panic :=
+  NP_parsePESData.val_ne_panic payload
+
+example : (parsePESData.val [0, 0, 1, 0xe0, 0, 0, 0x80, 0x80, 5, 0x21, 0, 1, 0, 1, 7, 7]).isOk = true := by
+  decide +kernel
+example : (parsePESData.val [0, 0, 1, 0xe0, 0xff]).isOk = false := by decide +kernel
+
+/-! ### (4) descriptors -/
+
+/-- **`parseDescriptors` never panics**: from any non-negative offset (it is called in the middle of a section),
+on any bytes, and it leaves a non-negative offset -/
+theorem parseDescriptors_never_panics (it : It) (h0 : 0 ≤ it.off) :
+    parseDescriptors it ≠ .panic ∧ ∀ ds it', parseDescriptors it = .ok (ds, it') → 0 ≤ it'.off :=
+  (NP_iff parseDescriptors).mp NP_parseDescriptors it h0
+
+/-- the DVB time parsers never panic -/
+theorem dvb_parsers_never_panic : NP parseDVBTime ∧ NP parseDVBDurationSeconds ∧ NP parseDVBDurationMinutes :=
+  ⟨NP_parseDVBTime, NP_parseDVBDurationSeconds, NP_parseDVBDurationMinutes⟩
+
+/-- the three descriptor constructors with an unguarded `NextBytes(offsetEnd - offset)` are panic-free exactly in
+the situation `parseDescriptor` calls them in (offset inside the non-empty descriptor body) … -/
+theorem unguarded_rest_descriptors_never_panic (e : Int) (it : It) (h0 : 0 ≤ it.off) (he : it.off < e) :
+    newDescriptorISO639LanguageAndAudioType e it ≠ .panic ∧ newDescriptorNetworkName e it ≠ .panic ∧
+      newDescriptorExtension e it ≠ .panic :=
+  ⟨(Tr_newDescriptorISO639LanguageAndAudioType e).not_panic it ⟨h0, he⟩,
+    (Tr_newDescriptorNetworkName e).not_panic it ⟨h0, he⟩, (Tr_newDescriptorExtension e).not_panic it ⟨h0, he⟩⟩
+
+-- … and do panic outside it (unreachable from `parseDescriptors`)
+example : ((newDescriptorISO639LanguageAndAudioType 1).run [1, 2, 3] 1).isPanic = true := by decide +kernel
+example : ((newDescriptorNetworkName 1).run [1, 2, 3] 2).isPanic = true := by decide +kernel
+
+example : (parseDescriptors.val [0xf0, 6, 0x0a, 4, 0x65, 0x6e, 0x67, 0]).isOk = true := by decide +kernel
+-- declared ISO 639 descriptor length 0: skipped, no panic
+example : (parseDescriptors.val [0xf0, 2, 0x0a, 0]).isOk = true := by decide +kernel
+
+/-! ### (5) PSI -/
+
+/-- **`parsePSIData` never panics**: from any non-negative offset, on any bytes -/
+theorem parsePSIData_never_panics_from (it : It) (h0 : 0 ≤ it.off) :
+    parsePSIData it ≠ .panic ∧ ∀ d it', parsePSIData it = .ok (d, it') → 0 ≤ it'.off :=
+  (NP_iff parsePSIData).mp NP_parsePSIData it h0
+
+/-- **`parsePSIData` never panics** on any payload (entry point of `parseData`) -/
+theorem parsePSIData_never_panics (payload : Bytes) : parsePSIData.val payload ≠ .panic :=
+  NP_parsePSIData.val_ne_panic payload
+
+/-- the syntax-data dispatcher is panic-free exactly when the syntax header is present for the table ids that have
+one (which `parsePSISection` guarantees); without it the model reports Go's nil dereference -/
+theorem parsePSISectionSyntaxData_never_panics (t : Nat) (sh : Option PSISectionSyntaxHeader) (e : Int)
+    (h : sh.isSome = hasPSISyntaxHeader t) : NP (parsePSISectionSyntaxData t sh e) :=
+  NP_parsePSISectionSyntaxData t sh e h
+
+example : ((parsePSISectionSyntaxData 0 none 10).run [1, 2, 3] 1).isPanic = true := by decide +kernel
+-- a PAT section with a wrong CRC: an error, not a panic; a too short one likewise
+example : (parsePSIData.val [0, 0, 0xb0, 0x0d, 0, 1, 0xc1, 0, 0, 0, 1, 0xf0, 0, 1, 2, 3, 4]).isOk = false := by
+  decide +kernel
+example : (parsePSIData.val [0, 0, 0xb0, 0x01, 0]).isPanic = false := by decide +kernel
+
+/-! ### (6) `parseData`, `isPSIComplete`, `NextPacket`, `NextData` -/
+
+/-- **`parseData` never panics**: any packets, any custom-parser kind, any program map -/
+theorem parseData_never_panics (ps : List Packet) (prs : ParserKind) (pm : ProgramMap) :
+    parseData ps prs pm ≠ .panic :=
+  parseData_ne_panic ps prs pm
+
+/-- the parser behind `isPSIComplete` never panics (so treating every failure as "incomplete" hides no panic) -/
+theorem isPSIComplete_parser_never_panics (payload : Bytes) :
+    (psiCompleteParser (payload.length + 1)).val payload ≠ .panic ∧
+    isPSICompleteBytes payload = (match (psiCompleteParser (payload.length + 1)).val payload with
+      | .ok b => b
+      | _ => false) :=
+  ⟨psiCompleteParser_ne_panic payload _, isPSICompleteBytes_eq payload⟩
+
+/-- auto-detection never panics and only returns sizes ≥ 188 -/
+theorem autoDetectPacketSize_never_panics (r : Reader) :
+    (autoDetectPacketSize r).1 ≠ .panic ∧ ∀ s, (autoDetectPacketSize r).1 = .ok s → 188 ≤ s := by
+  have := autoDetectPacketSize_spec r
+  constructor
+  · intro e; rw [e] at this; exact this
+  · intro s e; rw [e] at this; exact this
+
+/-- **`NextPacket` never panics**: any reader contents / kind / fault, any skipper and parser, any pool, in every
+state whose packet sizes are supported (`Demux.SizeOK`: option 0 or ≥ 187, installed size ≥ 187); the state
+afterwards is again such a state -/
+theorem nextPacket_never_panics (d : Demux) (h : d.SizeOK) : d.nextPacket.1 ≠ .panic ∧ d.nextPacket.2.SizeOK :=
+  nextPacket_spec d h
+
+/-- **`NextData` never panics** (same hypotheses), and re-establishes the invariant -/
+theorem nextData_never_panics (d : Demux) (h : d.SizeOK) : d.nextData.1 ≠ .panic ∧ d.nextData.2.SizeOK :=
+  nextData_spec d h
+
+/-- every initial state (`NewDemuxer`: no packet buffer yet) with packet size option 0 (auto-detect) or ≥ 187
+satisfies the invariant … -/
+theorem newDemux_sizeOK (d : Demux) (hp : d.packetSize = none) (ho : d.optPacketSize = 0 ∨ 187 ≤ d.optPacketSize) :
+    d.SizeOK :=
+  SizeOK_init d hp ho
+
+/-- … hence **no sequence of `NextPacket` / `NextData` / `Rewind` calls from an initial state ever panics** -/
+theorem demux_calls_never_panic (d : Demux) (hp : d.packetSize = none)
+    (ho : d.optPacketSize = 0 ∨ 187 ≤ d.optPacketSize) (calls : List DemuxCall) : d.anyPanic calls = false :=
+  anyPanic_false d (SizeOK_init d hp ho) calls
+
+-- non-vacuity: the default demuxer over arbitrary bytes, auto-detection, explicit 188 and 192
+example : ({ r := { data := [1, 2, 3] } } : Demux).SizeOK := SizeOK_init _ rfl (Or.inl rfl)
+example : ({ r := { data := List.replicate 400 0x47, kind := .plain }, optPacketSize := 192,
+             skipper := .script [true, false] , parser := .observer } : Demux).SizeOK :=
+  SizeOK_init _ rfl (Or.inr (by decide))
+example : (({ r := { data := 0x47 :: 0x40 :: 0 :: 0x10 :: List.replicate 184 0 }, optPacketSize := 188 } : Demux).anyPanic
+    [.nextData, .nextData, .rewind, .nextPacket, .nextPacket]) = false :=
+  demux_calls_never_panic _ rfl (Or.inr (by decide)) _
+-- the excluded configuration does panic (FINDING): explicit packet size 100 on a sync-byte-led stream
+example : (({ r := { data := 0x47 :: List.replicate 99 0 }, optPacketSize := 100 } : Demux).nextPacket.1).isPanic = true := by
+  decide +kernel
+example : (({ r := { data := 0x47 :: List.replicate 99 0 }, optPacketSize := 100 } : Demux).nextData.1).isPanic = true := by
+  decide +kernel
+
+/-- the guard is exact (FINDING): an explicit packet size `1 ≤ n ≤ 186` makes the first `NextPacket` panic on any
+fault-free reader holding at least `n` bytes that start with the sync byte -/
+theorem explicit_size_below_187_panics (d : Demux) (n : Nat) (tl : Bytes) (hps : d.packetSize = none)
+    (ho : d.optPacketSize = n) (h0 : 0 < n) (hn : n < 187) (hf : d.r.faultAt = none) (hpos : d.r.pos = 0)
+    (hdata : d.r.data = syncByte :: tl) (hlen : n ≤ tl.length + 1) : d.nextPacket.1 = .panic :=
+  nextPacket_panics_below_187 d n tl hps ho h0 hn hf hpos hdata hlen
+
+example : (({ r := { data := syncByte :: [1, 2, 3] }, optPacketSize := 2 } : Demux).nextPacket.1) = .panic :=
+  explicit_size_below_187_panics _ 2 [1, 2, 3] rfl rfl (by decide) (by decide) rfl rfl rfl (by decide)
+
+#print axioms explicit_size_below_187_panics
+#print axioms iterator_panic_conditions
+#print axioms iterator_offset_invariant
+#print axioms parsePacket_never_panics
+#print axioms parsePacket_never_panics_from
+#print axioms parsePacket_panics_iff
+#print axioms parsePESData_never_panics
+#print axioms parseDescriptors_never_panics
+#print axioms parsePSIData_never_panics
+#print axioms parseData_never_panics
+#print axioms isPSIComplete_parser_never_panics
+#print axioms nextPacket_never_panics
+#print axioms nextData_never_panics
+#print axioms demux_calls_never_panic
 
 end Astits.C03
